@@ -35,6 +35,12 @@ def main(argv=None):
     if args.cmd == "check":
         seed = int(os.environ.get("VERIF_SEED", "0") or 0)
         try:
+            from pyvc import crosscheck
+
+            errs = crosscheck.run(seed)
+            if errs:
+                print("checker error: the engine's encoding disagrees with CPython:\n  " + "\n  ".join(errs[:10]), file=sys.stderr)
+                return 3
             mod = importlib.import_module(f"checks.{args.prop}")
             rep = mod.run(args.tier, seed)
             code = rep.finish()
